@@ -71,11 +71,18 @@ func runLiveSoak(cs CaseSpec) *CaseResult {
 		swg.Add(1)
 		go func() {
 			defer swg.Done()
+			scratch := make([]byte, 0, 64)
 			for k := 0; k < total/3; k++ {
 				tx := []byte(fmt.Sprintf("soak|%d|%d|%d", cs.Index, s, k))
 				sent.Store(string(tx), true)
 				atomic.AddInt64(&sentCount, 1)
-				ln.Nodes[(s+k)%n].Proxy.SubmitTx(tx)
+				// the application reuses one scratch buffer for every submission and
+				// overwrites it as soon as SubmitTx has returned
+				scratch = append(scratch[:0], tx...)
+				ln.Nodes[(s+k)%n].Proxy.SubmitTx(scratch)
+				for x := range scratch {
+					scratch[x] = '#'
+				}
 				if k%8 == 7 {
 					time.Sleep(time.Millisecond)
 				}
@@ -134,6 +141,26 @@ func runLiveSoak(cs CaseSpec) *CaseResult {
 					res.violate("C01", "C01:block-disagreement", fmt.Sprintf("live nodes 0 and %d delivered different blocks %d", i, k),
 						map[string]interface{}{"engine": "live soak", "block_a": describeDelivered(chains[0][k]), "block_b": describeDelivered(chains[i][k])})
 					return res
+				}
+			}
+		}
+	}
+	// C05 safety half (needs no quiescence): nothing committed that was not
+	// submitted, nothing committed twice
+	if prop == "C05" {
+		for i, ch := range chains {
+			seen := map[string]int{}
+			for _, d := range ch {
+				for _, tx := range d.Body.Transactions {
+					seen[string(tx)]++
+					if _, ok := sent.Load(string(tx)); !ok {
+						res.violate("C05", "C05:committed-never-submitted", fmt.Sprintf("live node %d committed %q which nobody submitted", i, trunc(string(tx), 40)), map[string]interface{}{"engine": "live soak"})
+						return res
+					}
+					if seen[string(tx)] > 1 {
+						res.violate("C05", "C05:committed-more-than-submitted", fmt.Sprintf("live node %d committed %q %d times", i, trunc(string(tx), 40), seen[string(tx)]), map[string]interface{}{"engine": "live soak"})
+						return res
+					}
 				}
 			}
 		}
